@@ -1,4 +1,5 @@
 import Csverif.Proofs.Lock
+import Csverif.Proofs.LockId
 /-
 C15 — thread safety: sync state only touched under its lock; threaded runs are equivalent to a sequential interleaving
 of atomic steps.   Model: Model/Lock.lean (threads × one re-entrant lock × shared store).
@@ -157,3 +158,69 @@ example : (run (init demo (fun _ => 0)) [0, 1, 1, 1, 1, 0, 0, 0, 0, 0, 0, 0]).ma
   decide
 
 end CS.Lock
+
+/-! ## Part A' — lock identity
+
+`discipline_implies_serializable` is about a model with ONE lock.  The code has an attribute `state.lock` that every
+`with self.state.lock:` evaluates afresh; the theorem applies to it only if that attribute denotes the same lock object for
+the whole life of the state.  Model/LockId.lean has lock OBJECTS and a `rebind` action; the theorem below is the serializability
+theorem for that model, and it takes the stability of the lock identity as a named hypothesis, which is discharged from the
+generated table of binding sites (Props/C15Table.lean: `lock_identity_stable`, `engine_serializable`). -/
+
+namespace CS.LockId
+open CS.Lock (Tid Loc Val Disciplined)
+
+/-- serializability in the lock-object model, under LOCK-IDENTITY STABILITY (no thread re-binds `state.lock`) -/
+theorem serializable_of_stable_identity (p : MProg) (σ : Loc → Val)
+    (hstable : LockIdentityStable p) (hd : Disciplined (toProg p))
+    (sched : List Tid) (s' : MState) (hr : mrun (minit p σ) sched = some s') :
+    ∃ sched' s'', mrun (minit p σ) sched' = some s'' ∧ MSerial (minit p σ) sched' ∧
+      s''.store = s'.store ∧ s''.obs = s'.obs := by
+  have hi := minv_init (σ := σ) hstable
+  obtain ⟨sched1, h1⟩ := run_fwd sched _ _ hi hr
+  rw [proj_init] at h1
+  obtain ⟨sched', h2, hser, _⟩ := CS.Lock.discipline_implies_serializable (toProg p) σ hd sched1 (proj s') h1
+  rw [← proj_init] at h2 hser
+  obtain ⟨s'', hm, hp, hms⟩ := run_bwd sched' _ _ hi h2 hser
+  exact ⟨sched', s'', hm, hms, congrArg CS.Lock.State.store hp, congrArg CS.Lock.State.obs hp⟩
+
+/-- **the property's theorem with its hidden assumption made explicit.**  `bs` are the binding sites of the lock attribute found
+    in the source; `hsrc`: the only one is the constructor's (Props/C15Table.lean `lock_identity_stable`, by `decide` over the
+    generated table); `habs`: the program abstracts that source (a `rebind` action stands for a binding site outside the
+    constructor); `hd`: every access is made inside `acquire … release`.  Then every interleaving is equivalent to a serial one. -/
+theorem discipline_implies_serializable_stable_lock (bs : List BindingSite) (p : MProg) (σ : Loc → Val)
+    (hsrc : ConstructorOnly bs = true) (habs : RespectsBindings bs p) (hd : Disciplined (toProg p))
+    (sched : List Tid) (s' : MState) (hr : mrun (minit p σ) sched = some s') :
+    ∃ sched' s'', mrun (minit p σ) sched' = some s'' ∧ MSerial (minit p σ) sched' ∧
+      s''.store = s'.store ∧ s''.obs = s'.obs :=
+  serializable_of_stable_identity p σ (habs hsrc) hd sched s' hr
+
+/-! ### the hypothesis is needed: `forget()` re-creating the lock while the event thread is queued on it -/
+
+/-- every thread of `rebindDemo` makes its accesses inside `acquire … release` … -/
+theorem rebindDemo_disciplined : Disciplined (toProg rebindDemo) := by
+  intro t
+  unfold toProg rebindDemo
+  split
+  · simp [toAct, CS.Lock.okFrom]
+  · split
+    · simp [toAct, CS.Lock.okFrom]
+    · split <;> simp [toAct, CS.Lock.okFrom]
+
+/-- … but its lock identity is not stable, … -/
+theorem rebindDemo_unstable : ¬ LockIdentityStable rebindDemo := by
+  intro h
+  have := h 0 .rebind (by simp [rebindDemo])
+  simp [isRebind] at this
+
+/-- … and on the schedule "application takes the lock; event thread queues on it; application re-binds and releases; event
+    thread enters; sync thread enters" the event thread owns only the ORPHANED object 0 while the sync thread owns the current
+    object 1 — two threads are inside their critical sections at once — and the run ends with the sync thread's update LOST
+    (x = 1; both serial orders give 11). -/
+theorem rebind_breaks_exclusion :
+    (mrun (minit rebindDemo (fun _ => 0)) rebindSchedPrefix).map (fun s => (s.cur, s.owner 0, s.owner 1)) =
+        some (1, some 1, some 2) ∧
+    (mrun (minit rebindDemo (fun _ => 0)) rebindSched).map (fun s => s.store 0) = some 1 := by
+  decide
+
+end CS.LockId
